@@ -24,6 +24,7 @@ import (
 	"sort"
 	"strings"
 	"sync"
+	"sync/atomic"
 	"time"
 
 	"tunnox-core/internal/app/server"
@@ -148,14 +149,28 @@ type frame struct {
 	Gz  string `json:"gz"`
 	Pay string `json:"pay"`
 	Raw string `json:"raw,omitempty"` // pay = "short": the body content in hex (else picked seeded from shortBodies)
+	Sub string `json:"sub,omitempty"` // streams: "tiny" (tens of bytes on the wire) | "mid" (2-4 KiB on the wire)
+	Cmd int    `json:"cmd,omitempty"` // command kinds, pay = "good": command type to use (0: seeded)
 }
+
+// streamClass names a frame inside a multi-frame stream.
+func (f *frame) streamClass() string {
+	s := fmt.Sprintf("k=%s:z=%v:e=%v:gz=%s:pay=%s:sub=%s", f.K, f.Z, f.E, f.Gz, f.Pay, f.Sub)
+	if f.Cmd != 0 {
+		s += fmt.Sprintf(":cmd=%d", f.Cmd)
+	}
+	return s
+}
+
 type caseBeh struct {
-	Kind  string `json:"kind"` // frame | random | mutant
-	Frame *frame `json:"frame,omitempty"`
-	Exp   string `json:"exp,omitempty"` // outcome of ReadPacket predicted by the contract model
-	Salt  int64  `json:"salt"`
-	N     int    `json:"n,omitempty"`     // random: length; mutant: byte offset class
-	Field string `json:"field,omitempty"` // mutant: type | len | body
+	Frames []frame `json:"frames,omitempty"` // stream: the frames, in order
+	Thr    []int   `json:"thr,omitempty"`    // stream: reader thread of each ReadPacket call
+	Kind   string  `json:"kind"`             // frame | random | mutant | stream (several frames, calls from two threads) | flood (N copies of Frame)
+	Frame  *frame  `json:"frame,omitempty"`
+	Exp    string  `json:"exp,omitempty"` // outcome of ReadPacket predicted by the contract model
+	Salt   int64   `json:"salt"`
+	N      int     `json:"n,omitempty"`     // random: length; mutant: byte offset class
+	Field  string  `json:"field,omitempty"` // mutant: type | len | body
 }
 
 func (f *frame) class() string {
@@ -401,6 +416,21 @@ func (f *frame) body(r *rand.Rand) (body []byte, declared uint32) {
 		size = maxBody
 	}
 	switch {
+	case f.Sub == "mid" && f.Av == 2: // 2-4 KiB on the wire also when compressed: incompressible padding inside the content
+		full = midContent(f, r)
+		if f.Z {
+			full = gz(gzip.BestSpeed, full)
+			if f.Gz == "corrupt" {
+				full[len(full)/2] ^= 0x5a
+			}
+		}
+	case f.Cmd != 0 && f.Av == 2:
+		cp, _ := json.Marshal(packet.CommandPacket{CommandType: packet.CommandType(f.Cmd), CommandId: fmt.Sprintf("c%d", r.Intn(1000)), Token: "t",
+			SenderId: "1", ReceiverId: "2", CommandBody: bodies[r.Intn(len(bodies))]})
+		full = cp
+		if f.Z {
+			full = gz(gzip.BestSpeed, full)
+		}
 	case f.Pay == "short" && f.Av == 2:
 		full = f.short(r)
 		if f.Z {
@@ -527,6 +557,44 @@ func padFront(tail []byte) []byte {
 	return append(buf.Bytes(), tail...)
 }
 
+const alnum = "abcdefghijklmnopqrstuvwxyzABCDEFGHIJKLMNOPQRSTUVWXYZ0123456789"
+
+func randAlnum(r *rand.Rand, n int) string {
+	b := make([]byte, n)
+	for i := range b {
+		b[i] = alnum[r.Intn(len(alnum))]
+	}
+	return string(b)
+}
+
+// midContent: content of class f.Pay of about 3000 bytes that gzip cannot shrink below 2 KiB.
+func midContent(f *frame, r *rand.Rand) []byte {
+	pad := randAlnum(r, 2850+r.Intn(100))
+	if f.Pay != "good" {
+		b := make([]byte, 3000)
+		r.Read(b)
+		copy(b, []byte{0x00, 0xff, '{', '{'})
+		return b
+	}
+	switch f.K {
+	case "CMD", "RESP":
+		ct := f.Cmd
+		if ct == 0 {
+			ct = cmdTypes[r.Intn(len(cmdTypes))]
+		}
+		b, _ := json.Marshal(packet.CommandPacket{CommandType: packet.CommandType(ct), CommandId: "mid", Token: "t", SenderId: "1", ReceiverId: "2",
+			CommandBody: `{"pad":"` + pad + `"}`})
+		return b
+	case "HS":
+		b, _ := json.Marshal(packet.HandshakeRequest{ClientID: 12345678, Version: pad, Protocol: "tcp"})
+		return b
+	case "TOPEN":
+		b, _ := json.Marshal(packet.TunnelOpenRequest{MappingID: "m", TunnelID: "t-" + pad[:40], SecretKey: pad})
+		return b
+	}
+	return []byte(`{"tunnel_id":"t1","success":true,"pad":"` + pad + `"}`)
+}
+
 var unkTypes = []byte{0x00, 0x04, 0x0f, 0x12, 0x1f, 0x25, 0x30, 0x3f}
 var otherPay = []byte{byte(packet.HandshakeResp), byte(packet.TunnelOpenAck), byte(packet.TunnelData), byte(packet.TunnelClose), byte(packet.DataStreamEOF)}
 
@@ -641,10 +709,17 @@ func drive(env *fw.Env, b fw.Behaviour) *fw.Trace {
 	if err := json.Unmarshal(b.Data, &c); err != nil {
 		return &fw.Trace{Status: fw.DriverError, Note: err.Error()}
 	}
+	if atomic.LoadInt32(&hangs) >= maxHangs {
+		return &fw.Trace{Status: fw.Inconclusive, Note: "skipped: several calls already hung in this run (each costs a full watchdog)"}
+	}
 	r := rand.New(rand.NewSource(c.Salt))
 	var data []byte
 	var cls string
 	switch c.Kind {
+	case "stream":
+		return driveStream(env, &c, r)
+	case "flood":
+		return driveFlood(env, &c, r)
 	case "frame":
 		data = c.Frame.bytes(r)
 		cls = c.Frame.class()
@@ -686,7 +761,8 @@ func drive(env *fw.Env, b fw.Behaviour) *fw.Trace {
 	t := &fw.Trace{Status: fw.Realised}
 	t.Events = append(t.Events, fw.Event{"ev": "Case", "cls": cls, "exp": c.Exp, "bytes": len(data)})
 	runtime.GC()
-	for i := 0; i < 4; i++ { // adapter.connectionReadLoop
+	errs := 0
+	for i := 0; i < 6; i++ { // adapter.connectionReadLoop - but a caller that reads on after an error must be served too
 		var pkt *packet.TransferPacket
 		var rerr error
 		res := measured(wd, func() { pkt, _, rerr = sc.Stream.ReadPacket() })
@@ -708,9 +784,19 @@ func drive(env *fw.Env, b fw.Behaviour) *fw.Trace {
 			ev["bodyKiB"] = (n + 1023) / 1024
 		}
 		t.Events = append(t.Events, ev)
-		if ev["outcome"] != "Packet" {
+		if res.timedOut {
+			atomic.AddInt32(&hangs, 1)
+		}
+		if res.panicked || res.timedOut {
 			break
 		}
+		if rerr != nil {
+			if errs++; errs >= 2 { // the second error in a row (normally: end of stream) ends the loop
+				break
+			}
+			continue
+		}
+		errs = 0
 		var herr error
 		sp := &types.StreamPacket{ConnectionID: sc.ID, Packet: pkt, Timestamp: time.Now()}
 		res = measured(wd, func() { herr = s.sm.HandlePacket(sp) })
@@ -726,10 +812,234 @@ func drive(env *fw.Env, b fw.Behaviour) *fw.Trace {
 			ev["outcome"] = "Reply"
 		}
 		t.Events = append(t.Events, ev)
+		if res.timedOut {
+			atomic.AddInt32(&hangs, 1)
+		}
 		if res.panicked || res.timedOut || (herr != nil && coreerrors.IsCode(herr, coreerrors.CodeTunnelModeSwitch)) {
 			break
 		}
 	}
+	return t
+}
+
+// hangs counts calls that ran into the watchdog in this run; after maxHangs the remaining cases are skipped
+// (the verdict is decided, and every further hang would cost a full watchdog period).
+var hangs int32
+
+const maxHangs = 4
+
+type callOut struct {
+	read, disp     string // outcome
+	rmsg, dmsg     string
+	rpanic, dpanic bool
+	typ, bodyKiB   int
+	dispatched     bool
+	done           bool
+}
+
+// driveStream: several frames on one connection; the ReadPacket (+HandlePacket) calls are made by two goroutines
+// that take turns as the behaviour says and busy-wait in between, so that each keeps its own P - the situation of a
+// connection's read goroutine that is rescheduled onto another P between two packets. One more call is made after
+// the last frame (end of stream). Allocation is not measured here (two goroutines run).
+func driveStream(env *fw.Env, c *caseBeh, r *rand.Rand) *fw.Trace {
+	var data []byte
+	for i := range c.Frames {
+		data = append(data, c.Frames[i].bytes(r)...)
+	}
+	s, err := getServer()
+	if err != nil {
+		return &fw.Trace{Status: fw.DriverError, Note: "server assembly: " + err.Error()}
+	}
+	out := &sink{}
+	sc, err := s.sm.AcceptConnection(bytes.NewReader(data), out)
+	if err != nil {
+		return &fw.Trace{Status: fw.DriverError, Note: "AcceptConnection: " + err.Error()}
+	}
+	defer func() { _ = s.sm.CloseConnection(sc.ID) }()
+	total := len(c.Frames) + 1
+	sched := make([]int, total)
+	for i := range sched {
+		sched[i] = 1
+		if i < len(c.Thr) {
+			sched[i] = c.Thr[i]
+		} else if i > 0 {
+			sched[i] = 3 - sched[i-1] // the end-of-stream call: from the other thread
+		}
+	}
+	res := make([]callOut, total)
+	var turn, stop int64
+	done := make(chan struct{}, 2)
+	worker := func(id int) {
+		defer func() { done <- struct{}{} }()
+		for {
+			cur := atomic.LoadInt64(&turn)
+			if cur >= int64(total) || atomic.LoadInt64(&stop) != 0 {
+				return
+			}
+			if sched[cur] != id {
+				continue // busy-wait: this goroutine stays on its own P
+			}
+			o := &res[cur]
+			var pkt *packet.TransferPacket
+			func() {
+				defer func() {
+					if x := recover(); x != nil {
+						o.rpanic, o.rmsg = true, fmt.Sprint(x)
+					}
+				}()
+				p, _, rerr := sc.Stream.ReadPacket()
+				if rerr != nil {
+					o.read, o.rmsg = "Error", trunc(rerr.Error())
+					return
+				}
+				o.read, o.typ, pkt = "Packet", int(p.PacketType), p
+				n := len(p.Payload)
+				if p.CommandPacket != nil {
+					n += len(p.CommandPacket.CommandBody)
+				}
+				o.bodyKiB = (n + 1023) / 1024
+			}()
+			if pkt != nil {
+				o.dispatched = true
+				func() {
+					defer func() {
+						if x := recover(); x != nil {
+							o.dpanic, o.dmsg = true, fmt.Sprint(x)
+						}
+					}()
+					if herr := s.sm.HandlePacket(&types.StreamPacket{ConnectionID: sc.ID, Packet: pkt, Timestamp: time.Now()}); herr != nil {
+						o.disp, o.dmsg = "Error", trunc(herr.Error())
+					} else {
+						o.disp = "Reply"
+					}
+				}()
+			}
+			o.done = true
+			atomic.StoreInt64(&turn, cur+1)
+		}
+	}
+	go worker(1)
+	go worker(2)
+	timedOut := false
+	deadline := time.After(20 * time.Second)
+	for k := 0; k < 2 && !timedOut; k++ {
+		select {
+		case <-done:
+		case <-deadline:
+			timedOut = true
+			atomic.StoreInt64(&stop, 1)
+			atomic.AddInt32(&hangs, 1)
+		}
+	}
+	t := &fw.Trace{Status: fw.Realised}
+	upto := int(atomic.LoadInt64(&turn))
+	for i := 0; i < total && i <= upto; i++ {
+		cls := "end-of-stream"
+		if i < len(c.Frames) {
+			cls = c.Frames[i].streamClass()
+		}
+		switch {
+		case i == 0:
+			cls += ":first"
+		default:
+			cls += ":after=(" + c.Frames[i-1].streamClass() + ")"
+			if sched[i] != sched[i-1] {
+				cls += ":thr=switch"
+			} else {
+				cls += ":thr=same"
+			}
+		}
+		o := res[i]
+		hung := timedOut && i == upto && !o.done
+		if i == upto && !hung && !o.done {
+			break
+		}
+		t.Events = append(t.Events, fw.Event{"ev": "Case", "cls": cls, "call": i + 1})
+		rd := fw.Event{"ev": "Read", "panicked": o.rpanic, "timedOut": hung && !o.dispatched, "allocKiB": 0, "bodyKiB": o.bodyKiB, "outcome": o.read, "msg": o.rmsg}
+		if o.read == "" {
+			rd["outcome"] = "None"
+		}
+		t.Events = append(t.Events, rd)
+		if o.dispatched {
+			d := fw.Event{"ev": "Dispatch", "panicked": o.dpanic, "timedOut": hung, "allocKiB": 0, "outcome": o.disp, "msg": o.dmsg}
+			if o.disp == "" {
+				d["outcome"] = "None"
+			}
+			t.Events = append(t.Events, d)
+		}
+	}
+	return t
+}
+
+func liveHeapKiB() int64 {
+	runtime.GC()
+	runtime.GC()
+	var m runtime.MemStats
+	runtime.ReadMemStats(&m)
+	return int64(m.HeapAlloc / 1024)
+}
+
+// driveFlood: N copies of one small frame on one connection, read and dispatched in a loop by one goroutine; the
+// live heap is taken after N/2 and after N packets: what the server keeps per handled packet shows as growth.
+func driveFlood(env *fw.Env, c *caseBeh, r *rand.Rand) *fw.Trace {
+	one := c.Frame.bytes(r)
+	data := bytes.Repeat(one, c.N)
+	s, err := getServer()
+	if err != nil {
+		return &fw.Trace{Status: fw.DriverError, Note: "server assembly: " + err.Error()}
+	}
+	out := &sink{}
+	sc, err := s.sm.AcceptConnection(bytes.NewReader(data), out)
+	if err != nil {
+		return &fw.Trace{Status: fw.DriverError, Note: "AcceptConnection: " + err.Error()}
+	}
+	defer func() { _ = s.sm.CloseConnection(sc.ID) }()
+	var replies, refusals, readErrs int
+	var h0, h1, h2 int64
+	var pmsg string
+	fin := make(chan bool, 1)
+	start := time.Now()
+	go func() {
+		defer func() {
+			if x := recover(); x != nil {
+				pmsg = fmt.Sprint(x)
+				fin <- true
+			}
+		}()
+		h0 = liveHeapKiB()
+		for i := 0; i < c.N; i++ {
+			if i == c.N/2 {
+				h1 = liveHeapKiB()
+			}
+			pkt, _, rerr := sc.Stream.ReadPacket()
+			if rerr != nil {
+				readErrs++
+				continue
+			}
+			if herr := s.sm.HandlePacket(&types.StreamPacket{ConnectionID: sc.ID, Packet: pkt, Timestamp: time.Now()}); herr != nil {
+				refusals++
+			} else {
+				replies++
+			}
+		}
+		h2 = liveHeapKiB()
+		fin <- false
+	}()
+	ev := fw.Event{"ev": "Flood", "n": c.N, "panicked": false, "timedOut": false, "growKiB": 0, "replies": 0}
+	select {
+	case p := <-fin:
+		ev["panicked"] = p
+		ev["msg"] = pmsg
+	case <-time.After(120 * time.Second):
+		ev["timedOut"] = true
+		atomic.AddInt32(&hangs, 1)
+	}
+	if ev["panicked"] == false && ev["timedOut"] == false {
+		ev["growKiB"], ev["firstHalfKiB"], ev["replies"], ev["refusals"], ev["readErrs"] = h2-h1, h1-h0, replies, refusals, readErrs
+	}
+	ev["ms"] = time.Since(start).Milliseconds()
+	t := &fw.Trace{Status: fw.Realised}
+	t.Events = append(t.Events, fw.Event{"ev": "Case", "cls": "flood:" + c.Frame.streamClass()}, ev)
 	return t
 }
 
@@ -746,6 +1056,65 @@ func hashOf(b []byte) int64 {
 	h := fnv.New64a()
 	h.Write(b)
 	return int64(h.Sum64() >> 1)
+}
+
+// command types that go through a registered handler or a special path of handleCommandPacket
+var floodCmds = []int{50, 70, 71, 72, 73, 74, 75, 76, 82, 83, 84, 85, 86, 87, 11, 90, 110, 120, 121, 80, 81, 100, 102, 10, 99}
+
+// expandStream turns a generated stream behaviour {frames, calls} into a stream case; a stream of two identical
+// frames read by one thread additionally stands for "the same frame again and again": a flood of N copies
+// (command frames: one flood per command type), the size of N being to repetition what 16 MiB is to "MAX".
+func expandStream(env *fw.Env, raw json.RawMessage, h int64, keep func(int64) bool) []json.RawMessage {
+	var g struct {
+		Frames []frame `json:"frames"`
+		Calls  []struct {
+			Thr int `json:"thr"`
+		} `json:"calls"`
+	}
+	if err := json.Unmarshal(raw, &g); err != nil {
+		panic(err)
+	}
+	c := caseBeh{Kind: "stream", Frames: g.Frames, Salt: env.Seed*1000003 + h}
+	for _, x := range g.Calls {
+		if x.Thr != 0 {
+			c.Thr = append(c.Thr, x.Thr)
+		}
+	}
+	var out []json.RawMessage
+	per := int64(70)
+	if env.Tier == "thorough" {
+		per = 1000
+	}
+	if keep(per) {
+		out = append(out, fw.MustJSON(c))
+	}
+	if len(g.Frames) == 2 && g.Frames[0] == g.Frames[1] && len(c.Thr) == 2 && c.Thr[0] == 1 && c.Thr[1] == 1 {
+		f := g.Frames[0]
+		n := 2500
+		if env.Tier == "thorough" {
+			n = 6000
+		}
+		switch {
+		case f.K == "HB" || f.Sub == "mid":
+		case f.K == "CMD" && f.Pay == "good" && !f.E:
+			cmds := floodCmds
+			if env.Tier == "thorough" {
+				cmds = cmdTypes
+			}
+			for _, ct := range cmds {
+				if ct == 0 {
+					continue
+				}
+				ff := f
+				ff.Cmd = ct
+				out = append(out, fw.MustJSON(caseBeh{Kind: "flood", Frame: &ff, N: n, Salt: env.Seed*31 + int64(ct)}))
+			}
+		default:
+			ff := f
+			out = append(out, fw.MustJSON(caseBeh{Kind: "flood", Frame: &ff, N: n, Salt: env.Seed * 37}))
+		}
+	}
+	return out
 }
 
 func extra(env *fw.Env) []json.RawMessage {
@@ -898,21 +1267,39 @@ func main() {
 		DesignRef: "DESIGN.md §5 C05",
 		ModelJobs: func(env *fw.Env) []fw.TLCJob {
 			all := `{"shortHeader", "emptyNoLen", "unboundedInflate"}`
+			frames := "2"
+			if env.Tier == "thorough" {
+				frames = "3"
+			}
 			return []fw.TLCJob{
 				{Name: "mc:hostile-contract", Module: "Framing", Cfg: "Framing_hostile.cfg", Consts: map[string]string{"DEV": "{}", "ALLOC": "AllocBound"}},
 				{Name: "mc:hostile-as-found", Module: "Framing", Cfg: "Framing_hostile.cfg", Consts: map[string]string{"DEV": all, "ALLOC": "AllocBoundOrDev"}},
+				{Name: "mc:streams", Module: "Framing", Cfg: "Framing_stream.cfg", Heap: "12g",
+					Consts: map[string]string{"FRAMES": frames, "EMIT": "FALSE", "SPEC": "SPECIFICATION Spec\nPROPERTY Termination"}},
 			}
 		},
 		GenJobs: func(env *fw.Env) []fw.TLCJob {
-			return []fw.TLCJob{{Name: "gen:hostile-frames", Module: "Framing", Cfg: "Framing_genx.cfg", Workers: 4}}
-		},
-		MaxBeh: func(env *fw.Env) int {
+			gen := map[string]string{"FRAMES": "2", "EMIT": "TRUE", "SPEC": "INIT Init\nNEXT Next"}
+			jobs := []fw.TLCJob{{Name: "gen:hostile-frames", Module: "Framing", Cfg: "Framing_genx.cfg", Workers: 4},
+				{Name: "gen:streams", Module: "Framing", Cfg: "Framing_stream.cfg", Consts: gen, Workers: 8}}
 			if env.Tier == "thorough" {
-				return 0
+				jobs = append(jobs, fw.TLCJob{Name: "sim:streams3", Module: "Framing", Cfg: "Framing_stream.cfg", Workers: 4,
+					Consts: map[string]string{"FRAMES": "3", "EMIT": "TRUE", "SPEC": "INIT Init\nNEXT Next"}, Simulate: "num=1500", Depth: 60, Seed: env.Seed})
 			}
-			return 260
+			return jobs
 		},
+		MaxBeh: func(env *fw.Env) int { return 0 }, // sampling is done per source in Expand
 		Expand: func(env *fw.Env, src string, raw json.RawMessage) []json.RawMessage {
+			h := hashOf(raw)
+			keep := func(per1000 int64) bool { // seeded, deterministic sampling of one source
+				return (h/7+env.Seed*7919)%1000 < per1000
+			}
+			if src != "gen:hostile-frames" {
+				return expandStream(env, raw, h, keep)
+			}
+			if env.Tier != "thorough" && !keep(300) {
+				return nil
+			}
 			var g struct {
 				Frame frame  `json:"frame"`
 				Exp   string `json:"exp"`
